@@ -19,7 +19,6 @@ use sos_remote_sync::RemoteSyncHandler;
 use sos_server::{AccessControlConfig, Server, ServerBackend, ServerConfig, ServerState, State, UriOrPath};
 use sos_server_storage::ServerAccountStorage;
 use sos_signer::ed25519::{BinaryEd25519Signature, BoxedEd25519Signer, SingleParty};
-use sos_signer::Signer;
 use sos_sync::SyncStorage;
 use std::collections::{BTreeMap, HashSet};
 use std::net::SocketAddr;
@@ -96,7 +95,7 @@ impl TestServer {
         let cfg_dir = dir.parent().unwrap_or(&dir).join(format!("server-config-{}-{}", std::process::id(), n));
         std::fs::create_dir_all(&cfg_dir)?;
         let cfg_file = cfg_dir.join("config.toml");
-        let text = format!("[storage]\npath = {:?}\n\n[log]\ndirectory = \"logs\"\n", dir.to_string_lossy());
+        let text = format!("[storage]\npath = {:?}\n", dir.to_string_lossy());
         std::fs::write(&cfg_file, text)?;
         let mut config = ServerConfig::load(&cfg_file).await.map_err(|e| anyhow::anyhow!("config load: {e}"))?;
         config.storage.path = dir.clone();
